@@ -13,7 +13,7 @@ for id in $ids; do
   /verif/tools/seed_verify.sh $d "$src" "$dst" $args 2>&1 | sed "s/^/   /"
   prop=${id%%-*}
   echo "## $id check"
-  if [ "$prop" = "C19" ]; then /verif/tools/seed_run.sh $d/patch.diff quick $prop 2>&1 | grep -E "^C[0-9]+ " | sed "s/^/   /"
+  if [ "$prop" = "C19x" ]; then /verif/tools/seed_run.sh $d/patch.diff quick $prop 2>&1 | grep -E "^C[0-9]+ " | sed "s/^/   /"
   else /verif/tools/seed_run_iso.sh $d/patch.diff quick $prop 2>&1 | grep -E "^C[0-9]+ |does not apply|BUILD" | sed "s/^/   /"; fi
 done
 echo "## done"
